@@ -69,8 +69,8 @@ PLANS = {
              ["c01.apply", "c01.helpers", "c01.cpu-bound", "c01.cli"],
              inproc={"quick": [("relchk", 16, 3.0), ("dev", 16, 0.5), ("release", 16, 3.0)],
                      "thorough": [("relchk", 16, 2.0), ("dev", 16, 0.3), ("release", 16, 2.0), ("asan", 16, 0.1), ("miri", 8, None)]},
-             proc={"quick": [PL.cli_lane, PL.py_lane], "thorough": [PL.cli_lane, PL.py_lane]},
-             cells=["matrix-2:value", "matrix-2:error", "matrix-bare:value", "deep-bare:127:*", "deep-bracketed:63:*", "deep-data:value", "wide:value", "range:overflow:error", "index-key:value", "helper:abstract_plus", "class:over-limit-rule"],
+             proc={"quick": [PL.cli_lane, PL.py_lane, PL.amplify_lane], "thorough": [PL.cli_lane, PL.py_lane, PL.amplify_lane]},
+             cells=["amplify:small:answered", "wide-lazy:value", "error-echo:20KB:error", "deep-value:beyond-limit:error", "mutated-text:value", "matrix-2:value", "matrix-2:error", "matrix-bare:value", "deep-bare:127:*", "deep-bracketed:63:*", "deep-data:value", "wide:value", "range:overflow:error", "index-key:value", "helper:abstract_plus", "class:over-limit-rule"],
              extra_assume=["'never hangs' is restated as a bound: every call on a document of at most 64 KiB finishes within 10 s of thread CPU time (observed maximum is reported); a wall-clock watchdog firing is inconclusive, not a violation",
                            "domain: documents the text interfaces can deliver (serde_json recursion limit 128)"]),
     "C17": P("a pool of (rule, data) pairs (same rule on different data, different rules on the same data, erroring and logging calls; 120 x 8 quick, 400 x 12 thorough) is first evaluated once per pair (isolated result, log trace and allocation count), then driven through randomised histories biased towards 'same rule, other data' / 'other rule, same data' / exact repeats; each result and log trace must equal the isolated one, inputs must be unchanged, net live heap after the call must be 0 and the allocation count must equal the isolated count (hidden caches / memos). Concurrency: 2 / 4 / 16 threads on a barrier share the pool (half of the calls on 8 hot pairs), random yields and spins; each result must equal the isolated one and the multiset of printed lines must be the union of the isolated traces; lanes: native, ThreadSanitizer (build-std), Miri with different seeds. Process level: one call per fresh process vs the same calls in one process; strace deny-list on the real CLI (only writes to fd 1 / 2). Non-trivial = history steps of the two biased kinds and distinct completion orders; distinct by (pair, predecessor) / schedule signature.",
